@@ -83,8 +83,12 @@ func report(eng *Engine, units []*Unit, start time.Time, workdir string, timeout
 			continue
 		}
 		if u.Missing {
-			undecided = append(undecided, u.Name+": target-missing")
-			fmt.Printf("UNDECIDED %s target-missing\n", u.Name)
+			why := "target-missing"
+			if u.MissingWhy != "" {
+				why = u.MissingWhy
+			}
+			undecided = append(undecided, u.Name+": "+why)
+			fmt.Printf("UNDECIDED %s %s\n", u.Name, why)
 			continue
 		}
 		if u.Err != "" {
